@@ -363,7 +363,9 @@ func c16(c *Ctx) {
 				}
 				c.R.Check(good, site(x)+" failed-release-is-error", c.pos(x.Pos()), "a failed demotion write (other than NotFound) is returned", "a failure of the write that gives up control (e.g. a conflict) is treated as success: the revision counts as deactivated while it still controls the object")
 			}
-			for _, x := range cfgx.Calls(f, func(ci ssa.CallInstruction) bool { return strings.HasSuffix(cfgx.CalleeName(ci), ".SetOwnerReferences") }) {
+			for _, x := range cfgx.Calls(f, func(ci ssa.CallInstruction) bool {
+				return strings.HasSuffix(cfgx.CalleeName(ci), ".SetOwnerReferences")
+			}) {
 				nSet++
 				arg := cfgx.CallArgs(x)[0]
 				fromGet := flow.Default.Any(arg, func(v ssa.Value) bool {
@@ -416,7 +418,9 @@ func c16(c *Ctx) {
 		// the reference reaches the written object
 		var sink []ssa.CallInstruction
 		if f == cre {
-			sink = cfgx.Calls(f, func(ci ssa.CallInstruction) bool { return strings.HasSuffix(cfgx.CalleeName(ci), ".SetOwnerReferences") })
+			sink = cfgx.Calls(f, func(ci ssa.CallInstruction) bool {
+				return strings.HasSuffix(cfgx.CalleeName(ci), ".SetOwnerReferences")
+			})
 		} else {
 			for _, x := range calls(f, xprt+"meta.AddOwnerReference") {
 				if ok, _ := cfgx.MustCross(x, found, nil); ok && len(found) > 0 {
